@@ -1,25 +1,33 @@
 #!/usr/bin/env python3
-"""Sensitivity helper: apply one textual mutation to /repo, run checks, restore.
-usage: trymut.py <ids comma-sep> <repo-relative file> <old> <new> [--count N]
-Never leaves /repo modified (restores the file with git checkout)."""
-import subprocess, sys, os
+"""Sensitivity helper: apply one textual mutation to a scratch COPY of /repo (never to /repo itself),
+run checks against the copy, remove the copy.
+usage: trymut.py <ids comma-sep> <repo-relative file> <old> <new> [--any] [--tier thorough]"""
+import subprocess, sys, os, shutil, tempfile
 ids, path, old, new = sys.argv[1:5]
-full = os.path.join("/repo", path)
-src = open(full).read()
-n = src.count(old)
-if n != 1 and "--any" not in sys.argv:
-    print("pattern occurs %d times" % n); sys.exit(3)
-open(full, "w").write(src.replace(old, new, 1))
+tier = "thorough" if "thorough" in sys.argv[5:] else "quick"
+scratch = tempfile.mkdtemp(prefix="zrnt-mut-", dir="/var/tmp")
+repo = os.path.join(scratch, "repo")
+build = os.path.join(scratch, "build")
 try:
-    b = subprocess.run("cd /repo && GOFLAGS=-mod=mod GOPROXY=off go build ./... ", shell=True, capture_output=True, text=True)
+    subprocess.run(["rsync", "-a", "--exclude", ".git", "/repo/", repo + "/"], check=True)
+    os.makedirs(build)
+    full = os.path.join(repo, path)
+    src = open(full).read()
+    n = src.count(old)
+    if n != 1 and "--any" not in sys.argv:
+        print("pattern occurs %d times" % n); sys.exit(3)
+    open(full, "w").write(src.replace(old, new, 1))
+    env = dict(os.environ, GOFLAGS="-mod=mod", GOPROXY="off", GOSUMDB="off", GOTOOLCHAIN="local")
+    b = subprocess.run("go build ./...", shell=True, cwd=repo, capture_output=True, text=True, env=env)
     if b.returncode != 0:
         print("MUTANT DOES NOT COMPILE:", b.stderr[-500:]); sys.exit(4)
+    env.update(VERIF_REPO=repo, VERIF_BUILD=build)
     for i in ids.split(","):
-        p = subprocess.run(["/verif/check", i, "--no-evidence"], capture_output=True, text=True)
+        p = subprocess.run(["/verif/check", i, "--no-evidence", "--tier", tier], capture_output=True, text=True, env=env)
         lines = [l for l in p.stdout.splitlines() if l.startswith(("VIOLATION", "check ", "INCONCLUSIVE", "KNOWN", "  signature", "BUILD"))]
         print("[%s] rc=%d %s" % (i, p.returncode, "CAUGHT" if p.returncode == 1 else "MISSED" if p.returncode == 0 else "INCONCLUSIVE"))
         for l in lines[:8]: print("    " + l[:300])
 finally:
-    subprocess.run(["git", "-C", "/repo", "checkout", "--", path])
+    shutil.rmtree(scratch, ignore_errors=True)
     for i in ids.split(","):
         subprocess.run("rm -f /verif/replays/new/%s-*" % i, shell=True)
